@@ -91,3 +91,19 @@ M("tp22_snd_timeout_no_release", ["C06", "C10"], "FD originator CTS time-out kee
   ("j1939/j1939_22.py",
    "                        self.__send_tp_abort(buf['src_address'], buf['dest_address'], buf['session'], self.ConnectionAbortReason.TIMEOUT, buf['pgn'])\n                        del self._snd_buffer[bufid]",
    "                        self.__send_tp_abort(buf['src_address'], buf['dest_address'], buf['session'], self.ConnectionAbortReason.TIMEOUT, buf['pgn'])\n                        buf['deadline'] = 0"))
+
+M("tp21_no_key_snapshot", ["C08"], "job pass iterates the live send dict (no list() snapshot)",
+  ("j1939/j1939_21.py", "        for bufid in list(self._snd_buffer):", "        for bufid in self._snd_buffer:"))
+M("tp22_send_before_state", ["C08"], "FD: EOM status sent before the state is advanced (D4 partially reverted)",
+  ("j1939/j1939_22.py",
+   """                                buf['deadline'] = time.time() + self.Timeout.T5
+                                buf['state'] = self.SendBufferState.WAITING_EOM_ACK
+                                send_eom_status = True
+                                should_break = True""",
+   """                                self._J1939_22__send_tp_dt(buf['src_address'], buf['dest_address'], buf['session'], package+1, buf['data'][package])
+                                self._J1939_22__send_tp_eom_status(buf['src_address'], buf['dest_address'], buf['session'], buf['message_size'], buf['num_segments'], buf['pgn'])
+                                buf['deadline'] = time.time() + self.Timeout.T5
+                                buf['state'] = self.SendBufferState.WAITING_EOM_ACK
+                                break"""))
+M("tp21_rcv_index_live", ["C08"], "rcv pass indexes the live dict again (D22 reverted)",
+  ("j1939/j1939_21.py", "            buf = self._rcv_buffer.get(bufid)\n", "            buf = self._rcv_buffer[bufid]\n"))
